@@ -101,6 +101,32 @@ def run(ctx):
     from rules.c03 import commit_publishes_rule
     commit_publishes_rule(ctx, prog, 'C05-R4')
 
+    R5 = 'C05-R5'
+    ctx.rule(R5, 'what the planner knows about the engine is per database: the fields of optimizer::Config (enable_range_filter_scan, '
+                 'table_is_sorted_by_primary_key, ..) are never read inside a once-per-process initialiser (LazyLock / OnceLock / '
+                 'lazy_static closure, static item); otherwise the first database opened in a process decides how every other one plans, '
+                 'and an in-memory database gets scan filters it cannot execute')
+    n_once = 0
+    for b in prog.bodies.values():
+        once_closures = set()
+        for c in b.calls:
+            if re.search(r'(OnceLock|LazyLock|OnceCell|Lazy|Once)::<.*>::(get_or_init|get_or_try_init|new|call_once|force)$', c.name or ''):
+                n_once += 1
+                once_closures |= {child for bb, child in b.closure_sites() if bb == c.bb}
+        initialisers = [prog.bodies[n] for n in once_closures if n in prog.bodies]
+        if b.rec.get('kind') in ('Static', 'Const'):
+            initialisers.append(b)
+        for ib in initialisers:
+            for g in prog.group(ib.root) if ib.name == ib.root else [ib] + [x for x in prog.bodies.values() if x.name.startswith(ib.name + '::')]:
+                flds = sorted({f for _, st in g.stmts() for pl in operand_places(st) for f in pl_fields(pl) if re.search(r'optimizer::Config::', f)})
+                if g.name.startswith(ib.name):
+                    ctx.ob(R5, f'{ib.name}·reads-no-engine-config', not flds,
+                           f'{g.name} runs once per process' + (f' and reads {flds}' if flds else ' and reads no optimizer::Config field'),
+                           [g.loc],
+                           what=f'{ib.name} is initialised once per process from {flds}: the engine of the first database that plans a '
+                                'query fixes the rule set of every other database in the process')
+    ctx.floor(R5, n_once, 2, 'once-per-process initialisers')
+
 
 def _feeds_only_assert(g, bb):
     """the block's successors end in a panic on one side immediately (assert!(opts.x.is_none()))"""
